@@ -76,3 +76,82 @@ Definition good_calls_paus : list call :=
   [ (Transfer 0%N 1%N 300, [0%N]); (Approve 1%N 2%N 100 5000, [1%N]); (Pause 0%N, [0%N]);
     (Transfer 1%N 2%N 10, [1%N]); (Mint 1%N 5, [0%N]); (Approve 1%N 0%N 7 400, [1%N]);
     (Unpause 0%N, [0%N]); (TransferFrom 2%N 1%N 0%N 60, [2%N]); (Advance 6000, []); (Burn 1%N 40, [1%N]) ].
+
+(* ------------------------------------------------------------------ *)
+(* traces from the adversarial review                                  *)
+Definition with_list (q : obs) (l : list (option bool)) : obs :=
+  mkObs (o_supply q) (o_bal q) (o_alw q) (o_paused q) l (o_cap q) (o_mig q) (o_data q) (o_trap q) (o_mgr q).
+Definition with_cap (q : obs) (cp : option Z) : obs :=
+  mkObs (o_supply q) (o_bal q) (o_alw q) (o_paused q) (o_list q) cp (o_mig q) (o_data q) (o_trap q) (o_mgr q).
+Definition retrace (t : trace) (f : obs -> obs) : trace :=
+  mkTrace (t_cfg t) (f (t_obs0 t)) (map (fun st => (fst st, f (snd st))) (t_steps t)).
+
+(* 11. a list entry left unread until the end of the trace (a stale getter could hide there) *)
+Definition bad_unread_forever : trace :=
+  let t := observe_model cA [(AllowUser 1%N 0%N, []); (DisallowUser 1%N 0%N, []); (Advance 5, [])] in
+  mkTrace (t_cfg t) (t_obs0 t)
+          (map (fun st => (fst st, with_list (snd st) [Some false; None; Some false])) (t_steps t)).
+(* 12. observation with fewer list entries than the universe *)
+Definition bad_short_list : trace :=
+  retrace (observe_model cA [(AllowUser 1%N 0%N, [])]) (fun q => with_list q [Some false]).
+(* 13. capped example deployed with cap 100 whose cap getter says 1000, and a mint up to 1000 *)
+Definition bad_ctor_cap : trace :=
+  retrace (observe_model (mkCfg KCapEx 3 0%N 2%N 100000 0 1000 10) [(Mint 1%N 1000, [])])
+          (fun q => q) .
+Definition bad_ctor_cap' : trace := mkTrace cC (t_obs0 bad_ctor_cap) (t_steps bad_ctor_cap).
+(* 14. allow list: a MUXED receiver whose underlying address is not allowed receives *)
+Definition bad_mux_receiver : trace :=
+  let cs := [(AllowUser 0%N 0%N, []); (Mint 0%N 50, [])] in
+  let s := run cA (init cA) cs in
+  forged cA cs (TransferMux 0%N 1%N 77 5, [0%N]) true
+         (disallow_user (fst (step cA (allow_user s 1%N) (Transfer 0%N 1%N 5, [0%N]))) 1%N).
+(* 15. examples/pausable: increment goes through while paused *)
+Definition cX : cfg := mkCfg KPausEx 2 0%N 1%N 100000 0 0 10.
+Definition bad_increment_paused : trace :=
+  let cs := [(WhenNotPaused, []); (Pause 0%N, [0%N])] in
+  let s := run cX (init cX) cs in
+  forged cX cs (WhenNotPaused, []) true (set_supply s 2).
+(* 16. v1 -> v2: migrate accepted although no upgrade happened *)
+Definition cV1 : cfg := mkCfg KUpgV1 2 0%N 1%N 100000 0 0 10.
+Definition bad_v1_migrate : trace :=
+  forged cV1 [] (Migrate 3 0%N, [0%N]) true (set_mdata (init cV1) (Some 3)).
+(* 17. a constructor that must refuse (negative cap) but deployed *)
+Definition cNeg : cfg := mkCfg KCapEx 2 0%N 1%N 100000 0 (-5) 10.
+Definition bad_negative_cap_deployed : trace := mkTrace cNeg (observe cNeg (init cNeg)) [].
+Definition ok_negative_cap_refused : trace :=
+  mkTrace cNeg (mkObs (-1) [] [] false [] None false None true []) [].
+
+(* stricter than the text is NOT a monitor failure (the diff reports it): a block list that also
+   refuses a blocked spender; an approve that is refused while paused *)
+Definition strict_spender : trace :=
+  let cs := [(Mint 0%N 50, []); (Approve 0%N 1%N 20 500, [0%N]); (BlockUser 1%N 0%N, [])] in
+  forged cB cs (TransferFrom 1%N 0%N 2%N 5, [1%N]) false (run cB (init cB) cs).
+Definition strict_approve_paused : trace :=
+  let cs := [(Pause 0%N, [0%N])] in
+  forged cP cs (Approve 0%N 1%N 5 500, [0%N]) false (run cP (init cP) cs).
+
+(* non-trivial accepted runs of every kind *)
+Definition good_runs : list (cfg * list call) :=
+  [ (cP, good_calls_paus);
+    (cX, [(WhenNotPaused, []); (WhenPaused, []); (Pause 1%N, [1%N]); (Pause 0%N, [0%N]); (WhenNotPaused, []); (WhenPaused, []); (Advance 4000000, []); (WhenNotPaused, []); (Unpause 0%N, [0%N]); (WhenNotPaused, [])]);
+    (mkCfg KPausLib 2 0%N 1%N 100000 0 0 10, [(WhenNotPaused, []); (Pause 0%N, []); (WhenNotPaused, []); (WhenPaused, []); (Unpause 1%N, []); (WhenNotPaused, [])]);
+    (mkCfg KAllowEx 4 0%N 3%N 100000 1000 0 5,
+       [(AllowUser 1%N 3%N, [3%N]); (TransferMux 0%N 1%N 9 100, [0%N]); (Approve 1%N 2%N 50 900, [1%N]); (DisallowUser 1%N 3%N, [3%N]);
+        (TransferFrom 2%N 1%N 0%N 5, [2%N]); (Burn 1%N 5, [1%N]); (RevokeManager 3%N 0%N, [0%N]); (AllowUser 1%N 3%N, [3%N]);
+        (GrantManager 2%N 0%N, [0%N]); (AllowUser 1%N 2%N, [2%N]); (Advance 600000, []); (BurnFrom 2%N 1%N 0, [2%N]); (Burn 1%N 5, [1%N])]);
+    (cA, [(AllowUser 0%N 0%N, []); (Mint 0%N 50, []); (Transfer 0%N 1%N 5, [0%N]); (AllowUser 1%N 0%N, []); (Transfer 0%N 1%N 5, [0%N]); (Burn 1%N 2, [1%N])]);
+    (mkCfg KBlockEx 4 0%N 3%N 100000 1000 0 5,
+       [(Transfer 0%N 1%N 100, [0%N]); (BlockUser 1%N 3%N, [3%N]); (Transfer 1%N 2%N 1, [1%N]); (TransferMux 0%N 1%N 3 1, [0%N]); (Burn 1%N 1, [1%N]);
+        (UnblockUser 1%N 3%N, [3%N]); (Transfer 1%N 2%N 1, [1%N])]);
+    (cB, [(Mint 0%N 50, []); (Approve 0%N 1%N 20 500, [0%N]); (BlockUser 1%N 0%N, []); (TransferFrom 1%N 0%N 2%N 5, [1%N]); (BlockUser 0%N 0%N, []); (BurnFrom 1%N 0%N 5, [1%N])]);
+    (cC, [(Mint 1%N 60, []); (Mint 1%N 41, []); (Mint 2%N 40, []); (Mint 2%N 1, []); (Transfer 1%N 0%N 10, [1%N]); (Mint 0%N 170141183460469231731687303715884105727, [])]);
+    (mkCfg KCapLib 3 0%N 2%N 100000 0 0 10, [(Mint 1%N 1, []); (SetCap (-1), []); (SetCap 10, []); (Mint 1%N 10, []); (Burn 1%N 4, [1%N]); (Mint 2%N 5, []); (Mint 2%N 4, [])]);
+    (cV1, [(Migrate 1 0%N, [0%N]); (Upgrade true 0%N, [0%N]); (Advance 4000000, []); (Migrate 2 0%N, [0%N]); (Migrate 3 0%N, [0%N])]);
+    (cU, [(Migrate 1 0%N, [0%N]); (Upgrade false 0%N, [0%N]); (Upgrade true 0%N, [0%N]); (Upgrade true 0%N, [0%N]); (Migrate 2 1%N, [1%N]); (Migrate 2 0%N, [0%N]); (Migrate 3 0%N, [0%N])]);
+    (mkCfg KUpgLib 2 0%N 1%N 100000 0 0 10, [(LibEnsure, []); (LibEnable, []); (LibEnsure, []); (LibComplete, []); (LibEnsure, [])]) ].
+
+(* 18. an allowance that vanishes at an Advance although its live_until_ledger is far away *)
+Definition bad_allowance_vanishes : trace :=
+  let cs := [(Approve 0%N 1%N 1000 5000, [0%N])] in
+  let s := run cP (init cP) cs in
+  forged cP cs (Advance 0, []) true (set_alw s 0%N 1%N (0, 0)).
